@@ -421,6 +421,32 @@ fn adversarial(thorough: bool) -> Vec<Value> {
             out.push(cli_case(&["validate", "-r", "@r.guard", "-d", "@d.json", "--structured", "-o", "json", "-S", "none"], json!({"r.guard": GOOD_RULES, "d.json": d}), "", "malformed-data-excerpt"));
         }
     }
+    // --- malformed rules with a multi-byte character at every byte offset after the error position (error messages quote
+    //     the remaining input; a cut at a fixed byte count must not land inside a character)
+    {
+        let mut offs: Vec<usize> = (1..=300).collect();
+        offs.extend(500..=520);
+        offs.extend(1016..=1032);
+        for off in offs {
+            for ch in ["é", "€", "😀"] {
+                // (a) the error at the very beginning, (b) after a well-formed rule
+                for head in ["%%% ", "rule ok { a exists }\nrule r { a == == "] {
+                    let mut t = String::from(head);
+                    let start = t.len();
+                    while t.len() < start + off {
+                        t.push('x');
+                    }
+                    t.push_str(ch);
+                    t.push_str(" yyyyyyyy\n# tail\n");
+                    out.push(cli_case(&["validate", "-r", "@r.guard", "-d", "@d.json"], json!({"r.guard": t, "d.json": GOOD_DATA}), "", "malformed-rules-excerpt"));
+                    if off % 4 == 0 {
+                        out.push(cli_case(&["parse-tree", "-r", "@r.guard"], json!({"r.guard": t}), "", "malformed-rules-excerpt"));
+                        out.push(lib_case(&t, GOOD_DATA, "malformed-rules-excerpt"));
+                    }
+                }
+            }
+        }
+    }
     // --- console reporters on CloudFormation-shaped data in every layout (code excerpts around the failing line)
     for d in ["{\"Resources\":{\"b\":{\"Type\":\"AWS::S3::Bucket\",\"Properties\":{\"Name\":\"y\"}}}}", "{\n\"Resources\":{\"b\":{\"Type\":\"AWS::S3::Bucket\",\"Properties\":{\"Name\":\"y\"}}}}", "Resources:\n  b:\n    Type: AWS::S3::Bucket\n    Properties:\n      Name: y\n", "Resources: {b: {Type: 'AWS::S3::Bucket', Properties: {Name: y}}}", "\n\nResources:\n  b:\n    Type: AWS::S3::Bucket\n", "{\"resource_changes\":[{\"type\":\"aws_s3_bucket\",\"change\":{\"after\":{\"name\":\"y\"}}}],\"terraform_version\":\"1\"}"] {
         for r in ["rule r { Resources.*.Properties.Name == \"x\" <<m>> }\n", "AWS::S3::Bucket { Properties.Name == \"x\" }\n", "rule r { Resources.b.Properties.Missing exists }\n", "rule r { Resources.*.Properties.Name in [\"a\",\"b\"] }\nrule q { Resources.*.Type == Resources.*.Properties.Name }\n", "rule r { resource_changes[*].change.after.name == \"x\" }\n", "rule r { Resources exists\n Resources.* { Properties.Name != \"y\" } }\n"] {
